@@ -127,6 +127,9 @@ def check_level(ctx, child, rng, where):
                       message=f"reading {f} through the hierarchy raised {exc!r}")
 
 
+TEMP0 = "frame"
+
+
 class _S:
     ctx = None
     rng = None
@@ -232,6 +235,7 @@ def run_case(ctx, idx):
     youngest = levels[-1]
     excluded = {L: set() for L in range(len(levels))}
     hist = []
+    polys = []
     refreshes = 0
     changed_since = False
     nontrivial = False
@@ -277,9 +281,42 @@ def run_case(ctx, idx):
                 dclab.set_temporary_feature(levels[L], TEMP, data)
                 hist.append(["temp feature", L])
                 current = (L == len(levels) - 1)
-            elif r < 0.66:
+            elif r < 0.63:
                 root.config["imaging"]["frame rate"] = float(rng.choice([1000., 2000., 3000.]))
                 hist.append(["root frame rate"])
+            elif r < 0.70:
+                # other kinds of filter edits on a level that has a child: switch all filters
+                # of that level off/on, invalid-event removal, a polygon filter, an event limit
+                L = int(rng.integers(0, len(levels) - 1))
+                fc = levels[L].config["filtering"]
+                kind = int(rng.integers(0, 4))
+                if kind == 0:
+                    fc["enable filters"] = not fc["enable filters"]
+                    hist.append(["enable filters", L, bool(fc["enable filters"])])
+                elif kind == 1:
+                    fc["remove invalid events"] = not fc["remove invalid events"]
+                    hist.append(["remove invalid events", L, bool(fc["remove invalid events"])])
+                elif kind == 2:
+                    cur = list(fc["polygon filters"])
+                    if cur and rng.random() < 0.5:
+                        fc["polygon filters"] = cur[:-1]
+                        hist.append(["polygon removed", L])
+                    else:
+                        cx, cy = rng.uniform(0.2, 0.8), rng.uniform(-1, 1)
+                        w_ = rng.uniform(0.1, 0.6)
+                        pf = dclab.PolygonFilter(
+                            axes=("aspect", TEMP0),
+                            points=[[cx - w_, cy - 1e6], [cx + w_, cy - 1e6], [cx + w_, cy + 1e6],
+                                    [cx - w_, cy + 1e6]],
+                            inverted=bool(rng.random() < 0.3))
+                        polys.append(pf)
+                        fc["polygon filters"] = cur + [pf.unique_id]
+                        hist.append(["polygon added", L, round(cx - w_, 3), round(cx + w_, 3)])
+                else:
+                    fc["limit events"] = int(rng.choice([0, 0, 1, 3, 10]))
+                    hist.append(["limit events", L, int(fc["limit events"])])
+                current = False
+                changed_since = True
             elif r < 0.74 and len(levels) > 2:
                 L = int(rng.integers(1, len(levels) - 1))
                 levels[L].rejuvenate()
@@ -305,6 +342,11 @@ def run_case(ctx, idx):
                         "history": hist[:20]})
     finally:
         _S.rng = None
+        for pf in polys:
+            try:
+                dclab.PolygonFilter.remove(pf.unique_id)
+            except Exception:
+                pass
         for d in reversed(levels):
             try:
                 d.close()
